@@ -69,7 +69,13 @@ OPTS = {
     # a user-supplied ignore_dir that contains pattern characters
     'ignore_br': lambda r: ['--path', r, '--ignore_dir', 'da[t]a'],
     'siblings_mixed': lambda r: ['--path', os.path.join(r, 'sub_compat'), '--test-path', os.path.join(r, 'sub')],
+    # a second search path BELOW a directory that the walk of the first one
+    # skips (a default-ignored name / a user-supplied --ignore_dir): it is a
+    # searched directory all the same
+    'nested_git': lambda r: ['--path', r, '--path', os.path.join(r, '.git', 'inner')],
+    'nested_ignored_sub': lambda r: ['--test-path', os.path.join(r, 'sub', 'deep'), '--ignore_dir', 'sub', '--path', r],
 }
+NESTED = {'nested_git': '.git/inner/', 'nested_ignored_sub': 'sub/deep/'}
 SEARCHED = {'siblings': ('sub/', 'sub_compat/'), 'siblings_rev': ('sub/', 'sub_compat/'),
             'siblings_mixed': ('sub/', 'sub_compat/')}
 CHILD_WORLD = {
@@ -174,9 +180,14 @@ def classify(entries, ok):
         if ok in SEARCHED and not e.startswith(SEARCHED[ok]):
             continue
         parts = d.split('/') if d else []
+        inner = NESTED.get(ok)
+        if inner and e.startswith(inner):
+            # below the nested search path: only what lies between it and the
+            # file counts
+            parts = [x for x in d[len(inner):].split('/') if x]
         if '__pycache__' in parts or any(p in IGNORED for p in parts):
             continue
-        if ok == 'ignore_sub' and 'sub' in parts:
+        if ok in ('ignore_sub', 'nested_ignored_sub') and 'sub' in parts:
             continue
         if ok == 'ignore_br' and 'da[t]a' in parts:
             continue
@@ -209,6 +220,8 @@ def run_case(case):
     env.rmtree(root)
     os.makedirs(os.path.join(root, 'sub'))     # search paths must exist
     os.makedirs(os.path.join(root, 'sub_compat'))
+    if ok in NESTED:
+        os.makedirs(os.path.join(root, NESTED[ok]), exist_ok=True)
     store = os.path.join(ROOT, 'store')
     env.rmtree(store)
     os.makedirs(store)
